@@ -25,6 +25,7 @@ use vcore::dfs::{Chooser, DfsOpts, explore};
 const KEEPALIVE_INTERVAL_MS: u64 = 300;
 const KEEPALIVE_TIMEOUT_MS: u64 = 200;
 const QUANTUM_MS: u64 = 100;
+const BIG_BODIES: [usize; 8] = [32767, 32768, 32769, 40000, 65535, 65536, 65537, 100000];
 
 #[derive(Clone, Debug, PartialEq, Eq)]
 struct Case {
@@ -41,6 +42,8 @@ struct Case {
     /// the router's own handler map is pre-filled by this many real `allocate` calls (stream-id exhaustion); `answer`
     /// then indexes the callers that did get a stream id, in the order the peer saw them
     prefill: usize,
+    /// > 0: caller 0's response body has this many bytes (larger than the reader's initial 32 KiB allocation)
+    big: usize,
 }
 
 const CUT_KINDS: [&str; 5] = ["eof", "read-error", "write-error", "silence", "silence-after-keepalive"];
@@ -61,7 +64,7 @@ fn breaks_connection(k: &str) -> bool {
 
 impl Case {
     fn to_json(&self, choices: &[usize]) -> Value {
-        json!({"leg":"router-faults","n":self.n,"answer":self.answer,"kind":self.kind,"cut":self.cut,"late":self.late,"coalescing":self.coalescing,"read_chunk":self.read_chunk,"keepalive_everywhere":self.keepalive_everywhere,"prefill":self.prefill,"choices":choices})
+        json!({"leg":"router-faults","n":self.n,"answer":self.answer,"kind":self.kind,"cut":self.cut,"late":self.late,"coalescing":self.coalescing,"read_chunk":self.read_chunk,"keepalive_everywhere":self.keepalive_everywhere,"prefill":self.prefill,"big":self.big,"choices":choices})
     }
     fn from_json(v: &Value) -> Case {
         Case {
@@ -74,6 +77,7 @@ impl Case {
             read_chunk: v["read_chunk"].as_u64().unwrap_or(0) as usize,
             keepalive_everywhere: v["keepalive_everywhere"].as_bool().unwrap_or(false),
             prefill: v["prefill"].as_u64().unwrap_or(0) as usize,
+            big: v["big"].as_u64().unwrap_or(0) as usize,
         }
     }
 }
@@ -111,7 +115,7 @@ fn run_case(case: &Case, ch: &mut Chooser) -> (Result<(), String>, Run) {
 
 async fn drive(case: &Case, ch: &mut Chooser, w: &mut World, run: &mut Run) -> Result<(), String> {
     for i in 0..case.n {
-        w.start_caller(caller_spec(i));
+        w.start_caller(if i == 0 && case.big > 0 { caller_spec_big(0, case.big) } else { caller_spec(i) });
     }
     w.quiesce(ch, 400).await?;
     w.ingest()?;
@@ -471,10 +475,10 @@ fn cases(thorough: bool) -> Vec<Case> {
                         for late in lates {
                             let chunks: Vec<usize> = vec![0, 1];
                             for read_chunk in chunks {
-                                v.push(Case { n, answer: answer.clone(), kind: kind.to_string(), cut, late, coalescing: co.to_string(), read_chunk, keepalive_everywhere: false, prefill: 0 });
+                                v.push(Case { n, answer: answer.clone(), kind: kind.to_string(), cut, late, coalescing: co.to_string(), read_chunk, keepalive_everywhere: false, prefill: 0, big: 0 });
                                 if thorough && !is_silence(kind) && read_chunk == 0 {
                                     // the same fault with the keep-aliver armed (its select! and timers are then part of the joined router)
-                                    v.push(Case { n, answer: answer.clone(), kind: kind.to_string(), cut, late, coalescing: co.to_string(), read_chunk, keepalive_everywhere: true, prefill: 0 });
+                                    v.push(Case { n, answer: answer.clone(), kind: kind.to_string(), cut, late, coalescing: co.to_string(), read_chunk, keepalive_everywhere: true, prefill: 0, big: 0 });
                                 }
                             }
                         }
@@ -482,15 +486,30 @@ fn cases(thorough: bool) -> Vec<Case> {
                 }
                 if co == "yield" {
                     for late in [false, true] {
-                        v.push(Case { n, answer: answer.clone(), kind: ORPHAN_OVERFLOW.to_string(), cut: 0, late, coalescing: co.to_string(), read_chunk: 0, keepalive_everywhere: false, prefill: 0 });
+                        v.push(Case { n, answer: answer.clone(), kind: ORPHAN_OVERFLOW.to_string(), cut: 0, late, coalescing: co.to_string(), read_chunk: 0, keepalive_everywhere: false, prefill: 0, big: 0 });
                     }
                 }
                 for kind in BAD_KINDS {
                     for k in 0..=answer.len() {
                         for late in [false, true] {
-                            v.push(Case { n, answer: answer.clone(), kind: kind.to_string(), cut: k, late, coalescing: co.to_string(), read_chunk: 0, keepalive_everywhere: false, prefill: 0 });
+                            v.push(Case { n, answer: answer.clone(), kind: kind.to_string(), cut: k, late, coalescing: co.to_string(), read_chunk: 0, keepalive_everywhere: false, prefill: 0, big: 0 });
                         }
                     }
+                }
+            }
+        }
+    }
+    // response bodies around and above the reader's 32 KiB initial allocation, written back-to-back with the next response
+    // in ONE delivery (also with short reads), then the stream dies / a negative-stream frame follows: the big body's
+    // caller must hold exactly its bytes, the following frame must still be parsed at its own header
+    for big in BIG_BODIES {
+        for read_chunk in [0usize, 4096, 50_000] {
+            for (kind, cut) in [("eof", usize::MAX), ("read-error", usize::MAX), ("negative-stream", 2), ("eof", 9 + big / 2)] {
+                for answer in [vec![0usize, 1], vec![1, 0]] {
+                    if !thorough && (read_chunk == 4096 || kind == "read-error") && big % 2 == 0 {
+                        continue;
+                    }
+                    v.push(Case { n: 2, answer, kind: kind.to_string(), cut, late: false, coalescing: "yield".into(), read_chunk, keepalive_everywhere: false, prefill: 0, big });
                 }
             }
         }
@@ -509,7 +528,7 @@ fn cases(thorough: bool) -> Vec<Case> {
                 for cut in cuts {
                     for kind in ["silence", "silence-after-keepalive"] {
                         for late in [false, true] {
-                            v.push(Case { n, answer: answer.clone(), kind: kind.to_string(), cut, late, coalescing: "yield".into(), read_chunk: 0, keepalive_everywhere: false, prefill: 32768 - j });
+                            v.push(Case { n, answer: answer.clone(), kind: kind.to_string(), cut, late, coalescing: "yield".into(), read_chunk: 0, keepalive_everywhere: false, prefill: 32768 - j, big: 0 });
                         }
                     }
                 }
@@ -543,14 +562,17 @@ fn main() {
                     r.violation(&format!("{k}:{}", case.kind), &t, cj.clone());
                 }
             }
-            Err(p) => r.violation(&format!("panic:{}", case.kind), &format!("panic: {p} at {}", vcore::last_panic_location()), cj.clone()),
+            Err(p) => {
+                let (k, t) = split_key(&panic_complaint("replay", &p));
+                r.violation(&format!("{k}:{}", case.kind), &t, cj.clone());
+            }
         }
         r.finish_replay();
     }
     let thorough = r.tier().is_thorough();
     let forced_bound: Option<u32> = r.args.extra_value("--bound").and_then(|s| s.parse().ok());
     // quick: bound 2 for n<=2 and bound 1 for n=3; thorough: bound 3 throughout
-    let bound_for = |c: &Case| -> u32 { if c.kind == ORPHAN_OVERFLOW || c.prefill > 0 { return if thorough { 1 } else { 0 }; } forced_bound.unwrap_or(if thorough { 3 } else if c.n <= 2 { 2 } else { 1 }) };
+    let bound_for = |c: &Case| -> u32 { if c.kind == ORPHAN_OVERFLOW || c.prefill > 0 { return if thorough { 1 } else { 0 }; } if c.big > 0 { return 1; } forced_bound.unwrap_or(if thorough { 3 } else if c.n <= 2 { 2 } else { 1 }) };
     let bound = forced_bound.unwrap_or(if thorough { 3 } else { 1 });
     let audit_every: u64 = if thorough { 16 } else { 4 };
     let all = cases(thorough);
@@ -566,7 +588,7 @@ fn main() {
             let out = vcore::catch(std::panic::AssertUnwindSafe(|| run_case(case, ch)));
             let (verdict, run) = match out {
                 Ok(x) => x,
-                Err(p) => (Err(format!("panic|panic inside the router or harness: {p} at {}", vcore::last_panic_location())), Run::default()),
+                Err(p) => (Err(panic_complaint("one execution of the router harness", &p)), Run::default()),
             };
             executions.fetch_add(1, Ordering::Relaxed);
             if run.mixed {
@@ -645,7 +667,7 @@ fn main() {
     for c in all.iter().filter(|c| c.n == 3 && c.answer.len() == 2).take(2) {
         r.sample(c.to_json(&[]));
     }
-    r.set_rule(&format!("E-ASYNC fault enumeration on the real Connection::router: n=1..3 requests in flight x ordered subsets of answered requests ({}) x EVERY cut offset 0..=len of the response byte stream x {{eof, read-error, write-error(+a later request), silence with keep-alive {KEEPALIVE_INTERVAL_MS}/{KEEPALIVE_TIMEOUT_MS}ms and virtual time advanced past both, silence after one answered keep-alive}} and, after every whole number of frames, x {{garbage header, version 3, client-direction bit, unknown opcode, frame on a stream nobody waits on, second answer on an answered stream, negative stream, event frame}}; plus the driver's own give-up (1030 abandoned requests unanswered for over a second) per answered subset; plus stream-id exhaustion x silent stall x keep-alive (router map pre-filled by 32768-j real allocate calls, j=0,1,2, 1..2 callers, every pre-filled handler must be failed too); x a late request after the fault; every case explored by E-DFS over task scheduling and fault timing (fault together with / after the bytes) up to deviation bound {bound} (n=3) / {} (n<=2). evaluations = executions; distinct_nontrivial = distinct cases in which at the fault some request was completely or partially answered while another (or the same) was still owed. replays for the determinism audit: 1 in {audit_every} executions, full observation trace compared.", "all 1+2+5+16 of them; write coalescing yield/off (thorough: +1ms, + keep-aliver armed during the other faults)", if thorough { bound } else { bound + 1 }));
+    r.set_rule(&format!("E-ASYNC fault enumeration on the real Connection::router: n=1..3 requests in flight x ordered subsets of answered requests ({}) x EVERY cut offset 0..=len of the response byte stream x {{eof, read-error, write-error(+a later request), silence with keep-alive {KEEPALIVE_INTERVAL_MS}/{KEEPALIVE_TIMEOUT_MS}ms and virtual time advanced past both, silence after one answered keep-alive}} and, after every whole number of frames, x {{garbage header, version 3, client-direction bit, unknown opcode, frame on a stream nobody waits on, second answer on an answered stream, negative stream, event frame}}; plus the driver's own give-up (1030 abandoned requests unanswered for over a second) per answered subset; plus response bodies of 32767/32768/32769/40000/65535/65536/65537/100000 bytes written back-to-back with the next response in one delivery (unlimited / 4096 / 50000-byte reads) before the fault; plus stream-id exhaustion x silent stall x keep-alive (router map pre-filled by 32768-j real allocate calls, j=0,1,2, 1..2 callers, every pre-filled handler must be failed too); x a late request after the fault; every case explored by E-DFS over task scheduling and fault timing (fault together with / after the bytes) up to deviation bound {bound} (n=3) / {} (n<=2). evaluations = executions; distinct_nontrivial = distinct cases in which at the fault some request was completely or partially answered while another (or the same) was still owed. replays for the determinism audit: 1 in {audit_every} executions, full observation trace compared.", "all 1+2+5+16 of them; write coalescing yield/off (thorough: +1ms, + keep-aliver armed during the other faults)", if thorough { bound } else { bound + 1 }));
     r.assume("write error alone is invisible to a router that has nothing to write: that kind always adds a later request, which must make the router notice");
     r.assume("select!-branch randomness inside the router is audited by trace-equal replays, not owned");
     r.finish();
